@@ -55,6 +55,13 @@ def run_case(ctx, res, spec, nconf):
     test_set = ({k: np.asarray(v) for k, v in xt_model.items()},
                 {k: np.asarray(v) for k, v in yt.items() if k in base_sys.outputs()})
 
+    # a LARGE monitoring test set (1500 samples), and a test set given as inputs only ((xtest, None): no monitoring)
+    np.random.seed(13)
+    xb = base_sys.sample_inputs(1500)
+    yb = base_sys.predict(xb, use_model='best')
+    test_big = ({k: np.asarray(v) for k, v in to_model_dataset(xb, base_sys.inputs())[0].items()},
+                {k: np.asarray(v) for k, v in yb.items() if k in base_sys.outputs()})
+    test_inputs_only = (test_set[0], None)
     # a monitoring test set that covers only SOME of the outputs (one upstream output)
     last_out = sorted(test_set[1])[0]      # the most upstream output: a learner that only looked at it would neglect the rest
     test_subset = (test_set[0], {last_out: test_set[1][last_out]})
@@ -83,7 +90,8 @@ def run_case(ctx, res, spec, nconf):
             with contextlib.redirect_stdout(buf), contextlib.redirect_stderr(buf):
                 try:
                         system.fit(max_iter=max_iter or steps, num_refine=30, max_tol=max_tol,
-                               test_set=(test_subset if opts['test_set'] == 'subset' else test_set) if opts['test_set'] else None,
+                               test_set=({'subset': test_subset, 'big': test_big, 'inputs-only': test_inputs_only}.get(
+                                   opts['test_set'], test_set)) if opts['test_set'] else None,
                                save_interval=opts['save'],
                                plot_interval=opts['plot'], start_test_check=opts.get('start', None))
                 finally:
@@ -108,7 +116,9 @@ def run_case(ctx, res, spec, nconf):
             # (a test set that lacks some target outputs is only usable without a root directory: with one, fit tries to
             #  plot the missing outputs' test errors and raises KeyError — outside this property's option product)
             {'test_set': 'subset', 'save': 0, 'plot': 0, 'root': False, 'log': 'none'},
-            {'test_set': 'subset', 'save': 0, 'plot': 0, 'root': False, 'log': 'stdout', 'start': 1}]
+            {'test_set': 'subset', 'save': 0, 'plot': 0, 'root': False, 'log': 'stdout', 'start': 1},
+            {'test_set': 'big', 'save': 0, 'plot': 0, 'root': False, 'log': 'none', 'start': 1},
+            {'test_set': 'inputs-only', 'save': 0, 'plot': 0, 'root': False, 'log': 'none'}]
     for opts in must + allc[:max(0, nconf - len(must))]:
         got = train(opts)
         if got[0] != ref[0]:
@@ -208,6 +218,9 @@ def run(ctx: core.Ctx, only=None) -> core.Result:
         [c.get('spec', c) for c in core.corpus_cases('C19')] + \
         [dict(sc.gen_system_spec(ctx.rng, allow_nosurr=False), coupling_domain=[(-1.0, 3.0), (0.9, 1.1), (0.2, 0.6)][(k + 1) % 3])
          for k in range(ctx.scale(2, 6))]
+    if only is None and specs:
+        for c_ in specs[-1]['comps']:      # one system per run whose models report a cost that differs from call to call
+            c_['cost'] = 'percall'
     for spec in specs:
         with core.guarded(res, 'scenario-raised', {'spec': spec}):
             run_case(ctx, res, spec, ctx.scale(6, 40))
